@@ -3,7 +3,9 @@
 `mutant(module, "func", old_text, new_text)` re-compiles the function's source with one textual
 replacement inside the module's own namespace and installs it as the module attribute for the
 duration of the `with` block.  Callers that look the function up through the module globals at
-call time (the normal case) see the mutant."""
+call time (the normal case) see the mutant.  Decorators are not re-applied (a function that is only
+reachable through a dispatch registry cannot be mutated this way: the mutant would simply not be
+detected, which the self-test reports)."""
 from __future__ import annotations
 
 import contextlib
@@ -18,6 +20,11 @@ def mutant(module, func_name, old, new, count=1):
     orig = getattr(module, func_name)
     target = inspect.unwrap(orig)
     src = textwrap.dedent(inspect.getsource(target))
+    # drop decorators: re-applying them could have lasting side effects (dispatch registries); the
+    # ones on the functions mutated here only attach documentation
+    lines = src.splitlines(keepends=True)
+    start = next(i for i, ln in enumerate(lines) if ln.startswith(("def ", "async def ")))
+    src = "".join(lines[start:])
     if src.count(old) < 1:
         raise MachineryError("mutant: text %r not found in %s.%s" % (old, module.__name__, func_name))
     msrc = src.replace(old, new, count)
